@@ -52,7 +52,7 @@ ASSUMPTIONS = [
 HAND_LEMMAS = [
     "by induction on the entry id, with the element invariant link.from_state == dest(entry(pred)) the backtrace from any entry is the label sequence of a grammar path leaving the start state; with find_exit's postcondition (final ==> to_state == final_state) it is a sentence",
 ]
-NOT_COVERED = ["lextree construction (fsg_lextree.c: structure assumed by the word-arc contracts, checked on real lextrees by a bounded native run only)", "fsg_search_hmm_eval / fsg_search_step sequencing, fsg_history_entry_add / fsg_history_end_frame bodies (the table invariant is their callers' obligation, proved; that they store what they are given is not)", "fsg_search_hyp string building and fsg_search_seg_iter backtrace loops (only their no-exit clause is under contract)", "decoder.c dispatch", "grammar augmentation beyond the bounded add_alt check (silence loops, closure)", "the items above are NOT under contract; on real decodes they are exercised only by the bounded native run e2e_invariants (FSG acceptance of hypotheses / partial results, ~25 decodes) -- never counted as proved"]
+NOT_COVERED = ["lextree construction (fsg_lextree.c: structure assumed by the word-arc contracts, checked on real lextrees by a bounded native run only)", "fsg_search_hmm_eval / fsg_search_step sequencing, fsg_history_entry_add / fsg_history_end_frame bodies as contracts (the table invariant is their callers' obligation, proved; that entry_add stores exactly the arc, frame, score, predecessor and last phone it is given, and leaves those of existing entries alone, is checked on lists of <= 2 entries by the bounded C02 group history_entry_add only; end_frame's id assignment is not checked)", "fsg_search_hyp string building and fsg_search_seg_iter backtrace loops (only their no-exit clause is under contract)", "decoder.c dispatch", "grammar augmentation beyond the bounded add_alt check (silence loops, closure)", "the items above are NOT under contract; on real decodes they are exercised only by the bounded native run e2e_invariants (FSG acceptance of hypotheses / partial results, ~25 decodes) -- never counted as proved"]
 CLAIM = dict(
     text="Consumer side of 'results are sentences of the grammar': fsg_search_find_exit is proved, with loop invariants and termination, for history tables of any length: the entry it returns has a link, ends no later than the requested frame, carries the reported score and -- for a final result -- enters the grammar's final state; otherwise it returns <= 0. fsg_search_hyp is proved to return NULL and change nothing whenever no admissible exit exists. Producer side: fsg_search_null_prop is proved (two nested loop contracts, termination of the outer loop) to add only entries whose link leaves the state its predecessor entered, with the predecessor's frame and a null label -- the path-connectivity invariant as a precondition of fsg_history_entry_add. Word arcs: fsg_search_word_trans (two loop contracts: history table of any length with termination, root chain of any length), fsg_search_pnode_trans (loop contract over the sibling chain), fsg_search_hmm_prune_prop (loop contract over the active list; callees replaced by their contracts) and the loop-free fsg_search_pnode_exit are proved to carry the history-source invariant from a word's entry to its exit, where it is exactly that precondition of fsg_history_entry_add; each transition enters its target with the source score plus the target's arc weight exactly once, the source's back-pointer and the next frame, only when allowed by the beam and the phonetic context sets; a word exit adds exactly one entry carrying the leaf's grammar arc, the current frame, the exit score unchanged and the exit back-pointer. The lextree structure these contracts rely on is assumed (checked on real lextrees by a bounded native run). Grammar augmentation: alternate-pronunciation arcs added by fsg_model_add_alt join the same states as the base-word arc (bounded, 2-state grammar, real hash table).",
     note="assumed: ghost-cell / list-cell views of the history table, sibling chains and active list, lextree structure, one unproved pointer re-materialisation (anytype_t union), err_msg; not covered: hypothesis string building, lextree construction, fsg_search_step sequencing, decoder dispatch; trusted: CBMC 6.11; end-to-end invariants on ~12 real decodes by a bounded native run (native/e2e_invariants.c), never counted as proved",
